@@ -30,8 +30,8 @@ INVS = {
 }
 # clauses of the statement that the spec (= the code, by conformance) violates: checked separately, replayed
 STRICT = {
-    "C10": [("C10_BlockRestored", "SnapSeq_mc_quick.cfg")],
-    "C12": [("C12_InUseStrict", "SnapSeq_mc_kernel.cfg")],
+    "C10": [("C10_BlockRestored", "SnapSeq_mc_c10strict.cfg")],
+    "C12": [("C12_InUseStrict", "SnapSeq_mc_c12strict.cfg")],
 }
 IRR = ("install", "refresh", "revert")
 PARTIAL_DISCARD_OPS = ("remove-snap-mount-units", "remove-inhibit-lock", "remove-snap-dir")
@@ -79,7 +79,7 @@ def _constants_of(cfg):
 def model_check(ctx, prop):
     cfgs = ["SnapSeq_mc_quick.cfg"] if ctx.quick else ["SnapSeq_mc_thorough.cfg"]
     if prop == "C12":
-        cfgs.append("SnapSeq_mc_kernel.cfg")     # boot.InUse answers
+        cfgs.append(ctx.pick("SnapSeq_mc_kernel_quick.cfg", "SnapSeq_mc_kernel.cfg"))     # boot.InUse answers
     total = {"states": 0, "transitions": 0, "coverage": {}, "constants": {}, "wall": 0.0, "depth": 0}
     for base in cfgs:
         name = "%s_%s" % (prop, base)
@@ -91,7 +91,10 @@ def model_check(ctx, prop):
             raise InfraError("spec-level counterexample in %s (%s): the spec violates %s; triage spec vs code\n%s" % (
                 base, res.summary(), res.name, _behaviour_summary(res.trace)))
         if cov:
-            tlc.require_coverage(res, ["Request", "StepDo", "AnyFail", "Finish", "StepUndo", "SettleError"])
+            tlc.require_coverage(res, ["Request", "StepDo", "Finish", "StepUndo", "SettleError"])
+            # the failing step is reported as AnyFail (OpFaults) or StepFail (TLC expands the constant set)
+            if res.coverage.get("AnyFail", (0, 0))[1] + res.coverage.get("StepFail", (0, 0))[1] == 0:
+                raise InfraError("vacuity guard: no task failure was explored in %s" % base)
             for k, v in tlc.coverage_summary(res).items():
                 total["coverage"][k] = total["coverage"].get(k, 0) + v
         total["states"] += res.distinct
@@ -234,6 +237,17 @@ def directed_histories():
         op("candidates", rev=3), op("candidates", rev=2), op("candidates", rev=4), op("candidates", rev=1),
         op("refresh", rev=3, store=True), op("candidates", rev=2), op("revert", rev=2, nb=True), op("candidates", rev=3),
         op("revert", rev=1), op("candidates", rev=3), op("candidates", rev=2), op("refresh", rev=4, store=True)]})
+    # whole-snap and single-revision removal with every backend operation of the change failing in turn
+    for j in range(1, 23):
+        hs.append({"id": "d-remove-j%d" % j, "onClassic": False, "ops": [
+            op("install", rev=1), op("setconfig", val=2), op("refresh", rev=2), op("remove", rev=0, fj=j), op("remove", rev=0)]})
+    for kk in range(1, 10):
+        hs.append({"id": "d-remove1-k%d" % kk, "onClassic": True, "ops": [
+            op("install", rev=3), op("remove", rev=0, fk=kk), op("enable"), op("disable", fk=kk % 5), op("remove", rev=3)]})
+    # PartialDiscard (named deviation of SnapSeq): discard-snap of the last revision fails after the files are gone
+    for fop in PARTIAL_DISCARD_OPS:
+        hs.append({"id": "d-partial-discard-" + fop, "onClassic": False, "ops": [
+            op("install", rev=1), op("remove", rev=0, fk=9, fop=fop), op("remove", rev=0)]})
     # kernel, boot in-use answers
     k = KERNEL
     hs.append({"id": "d-kernel-1", "onClassic": False, "ops": [
@@ -526,8 +540,8 @@ def direct_check(prop, log):
                     tainted.add((ch["case"], n))
                     cls = "C11:record and system disagree (%s)" % ",".join(bad)
                     if t == "change" and ch["op"]["kind"] == "remove" and ch.get("injected") in PARTIAL_DISCARD_OPS:
-                        cls = "C11:PartialDiscard: discard-snap of the last revision failed in %s after the files were removed; record still lists the revision (%s)" % (
-                            ch["injected"], ",".join(bad))
+                        cls = ("C11:PartialDiscard: discard-snap of the last revision failed (RemoveContainerMountUnits/RemoveSnapInhibitLock/"
+                               "RemoveSnapDir) after RemoveSnapFiles; the record still lists a revision that is no longer on the system")
                     report(cls, ch["hist"], "snap %s after %s: %s; record/world=%s" % (n, ch["hist"], bad, json.dumps(rec)),
                            {"case": ch["case"], "history": ch["hist"], "snap": n, "real": rec})
                 elif not bad:
@@ -725,10 +739,12 @@ def run(ctx, prop):
         raise InfraError("vacuity guard: only %d distinct abstract states reached by real executions" % distinct)
 
     # dedupe violations by key
+    # one violation per class (the text before ": hist="), shortest history first
     seen, uniq = set(), []
-    for v in violations:
-        if v.key not in seen:
-            seen.add(v.key)
+    for v in sorted(violations, key=lambda v: len(v.key)):
+        cls = v.key.split(": hist=")[0]
+        if cls not in seen:
+            seen.add(cls)
             uniq.append(v)
 
     samples = []
